@@ -67,6 +67,33 @@ fn gates_json(cs: &ConstraintSystem<F>, names: &[&str]) -> (Vec<Value>, Vec<usiz
     (gates, cols.into_iter().collect())
 }
 
+fn selectors(e: &Expression<F>, out: &mut BTreeSet<usize>) {
+    match e {
+        Expression::Selector(s) => {
+            out.insert(s.index());
+        }
+        Expression::Negated(a) | Expression::Scaled(a, _) => selectors(a, out),
+        Expression::Sum(a, b) | Expression::Product(a, b) => {
+            selectors(a, out);
+            selectors(b, out);
+        }
+        _ => {}
+    }
+}
+
+/// Advice columns and selector indices used by the named gates (sorted).
+pub fn ecc_cols_and_selectors(cs: &ConstraintSystem<F>, names: &[&str]) -> (Vec<usize>, Vec<usize>) {
+    let mut cols = BTreeSet::new();
+    let mut sels = BTreeSet::new();
+    for g in cs.gates().iter().filter(|g| names.contains(&g.name())) {
+        for p in g.polynomials() {
+            advice_cols(p, &mut cols);
+            selectors(p, &mut sels);
+        }
+    }
+    (cols.into_iter().collect(), sels.into_iter().collect())
+}
+
 pub const JUB_GATES: [&str; 3] = ["double", "conditional add", "witness point"];
 pub const FOREIGN_GATES: [&str; 4] = [
     "Foreign-field EC assert_is_on_curve",
